@@ -21,6 +21,7 @@ import (
 
 	"github.com/apernet/quic-go"
 
+	"github.com/apernet/hysteria/core/v2/internal/frag"
 	"github.com/apernet/hysteria/core/v2/internal/protocol"
 	"pgregory.net/rapid"
 )
@@ -66,6 +67,7 @@ type v05sSent struct {
 	fragCount uint8
 	addr      string
 	data      []byte
+	lim       int // the link's datagram limit when this one was accepted
 }
 
 // v05sIO implements udpIO; only SendMessage is used by sendMessageAutoFrag.
@@ -75,6 +77,8 @@ type v05sIO struct {
 	refused   int // calls answered with DatagramTooLargeError
 	calls     int
 	failAt    int // 1-based call index answered with a generic error (0 = never)
+	limit2    int // the link's limit from call changeAt on (path MTU change in the middle of a send)
+	changeAt  int // 1-based call index (0 = the limit never changes)
 }
 
 var v05sErrInjected = errors.New("v05: injected send failure")
@@ -89,11 +93,15 @@ func (f *v05sIO) SendMessage(buf []byte, m *protocol.UDPMessage) error {
 		return v05sErrInjected
 	}
 	size := v05sHeaderSize(len(m.Addr)) + len(m.Data)
-	if size > f.limit {
-		f.refused++
-		return &quic.DatagramTooLargeError{MaxDatagramPayloadSize: int64(f.limit)}
+	lim := f.limit
+	if f.changeAt > 0 && f.calls >= f.changeAt {
+		lim = f.limit2
 	}
-	f.delivered = append(f.delivered, v05sSent{m.SessionID, m.PacketID, m.FragID, m.FragCount, m.Addr, append([]byte(nil), m.Data...)})
+	if size > lim {
+		f.refused++
+		return &quic.DatagramTooLargeError{MaxDatagramPayloadSize: int64(lim)}
+	}
+	f.delivered = append(f.delivered, v05sSent{m.SessionID, m.PacketID, m.FragID, m.FragCount, m.Addr, append([]byte(nil), m.Data...), lim})
 	return nil
 }
 func (f *v05sIO) Hook(data []byte, reqAddr *string) error { return nil }
@@ -105,10 +113,15 @@ type v05sCase struct {
 	sid                        uint32
 	seed                       int64
 	failAt                     int
+	limit2, changeAt           int
 }
 
 func (c v05sCase) String() string {
-	return fmt.Sprintf("payload=%d addr=%d limit=%d (hdr=%d) sid=%d randseed=%d failAt=%d", c.payloadLen, c.addrLen, c.limit, v05sHeaderSize(c.addrLen), c.sid, c.seed, c.failAt)
+	s := fmt.Sprintf("payload=%d addr=%d limit=%d (hdr=%d) sid=%d randseed=%d failAt=%d", c.payloadLen, c.addrLen, c.limit, v05sHeaderSize(c.addrLen), c.sid, c.seed, c.failAt)
+	if c.changeAt > 0 {
+		s += fmt.Sprintf(" limit->%d from link call %d", c.limit2, c.changeAt)
+	}
+	return s
 }
 
 func v05sGen(t *rapid.T, maxPayload int) v05sCase {
@@ -153,6 +166,19 @@ func v05sGen(t *rapid.T, maxPayload int) v05sCase {
 	if rapid.IntRange(0, 9).Draw(t, "injectFailure") == 0 {
 		c.failAt = rapid.IntRange(1, 6).Draw(t, "failAt")
 	}
+	if rapid.IntRange(0, 5).Draw(t, "limitChanges") == 0 {
+		// the datagram limit changes after >= 1 fragment is out (call 1 = unfragmented attempt, call 2 = fragment 0)
+		b1 := rapid.IntRange(2, 1400).Draw(t, "budget1")
+		k := rapid.IntRange(2, 8).Draw(t, "fragments")
+		c.payloadLen = b1*(k-1) + rapid.IntRange(1, b1).Draw(t, "lastFragment")
+		b2 := rapid.IntRange(1, b1+20).Draw(t, "budget2")
+		if minSame := (c.payloadLen + k - 1) / k; minSame <= b1-1 && rapid.IntRange(0, 2).Draw(t, "sameCount") != 0 {
+			b2 = rapid.IntRange(minSame, b1-1).Draw(t, "budget2same") // same fragment count, other boundaries
+		}
+		c.limit, c.limit2 = hdr+b1, hdr+b2
+		c.changeAt = 2 + rapid.IntRange(1, k-1).Draw(t, "changeAtFragment")
+		c.failAt = 0
+	}
 	return c
 }
 
@@ -174,12 +200,35 @@ func v05sCheckDelivered(c v05sCase, addr string, payload []byte, io *v05sIO, ret
 	need := v05sNeed(c)
 	hdr := v05sHeaderSize(c.addrLen)
 	for i, d := range io.delivered {
-		if hdr+len(d.data) > c.limit {
-			return fmt.Errorf("delivery %d has wire size %d > limit %d", i, hdr+len(d.data), c.limit)
+		if hdr+len(d.data) > d.lim {
+			return fmt.Errorf("delivery %d has wire size %d > limit %d", i, hdr+len(d.data), d.lim)
 		}
 		if d.sid != c.sid || d.addr != addr {
 			return fmt.Errorf("delivery %d changed session/address (sid=%d addr=%q)", i, d.sid, d.addr)
 		}
+	}
+	// receiver side: everything the link delivered, in order, through the wire format into the far
+	// side's reassembler. Whatever the sender returned, the far side gets the message or nothing.
+	changed := c.changeAt > 0 && io.calls >= c.changeAt
+	emitted, err := v05sReceive(io)
+	if err != nil {
+		return err
+	}
+	for _, e := range emitted {
+		if e.SessionID != c.sid || e.Addr != addr || !bytes.Equal(e.Data, payload) {
+			return fmt.Errorf("the receiver reassembled a %d-byte message from the %d delivered datagrams that differs from the %d-byte message that was sent (send returned %v)", len(e.Data), len(io.delivered), len(payload), ret)
+		}
+	}
+	if len(emitted) > 1 {
+		return fmt.Errorf("the receiver got the message %d times", len(emitted))
+	}
+	if !failed && !changed && (need == -1 || (need >= 1 && need <= 255)) && len(emitted) != 1 {
+		return fmt.Errorf("deliverable message (fragments needed=%d) did not come out of the receiver's reassembler (%d datagrams delivered)", need, len(io.delivered))
+	}
+	if changed {
+		// the link refused a fragment because its limit changed mid-send: the message may be lost or
+		// re-sent in any form; only the receiver-side all-or-nothing rule above applies
+		return nil
 	}
 	// failed: an injected environment failure hit one of the sends. The message may then be
 	// lost, but whatever was delivered must still be the whole message or a prefix of a
@@ -253,11 +302,37 @@ func v05sCheckDelivered(c v05sCase, addr string, payload []byte, io *v05sIO, ret
 	return nil
 }
 
+// v05sReceive feeds the link's deliveries, serialized and parsed back, into one frag.Defragger.
+func v05sReceive(io *v05sIO) (out []*protocol.UDPMessage, err error) {
+	defer func() {
+		if r := recover(); r != nil {
+			err = fmt.Errorf("receiver panic: %v", r)
+		}
+	}()
+	d := &frag.Defragger{}
+	for i, s := range io.delivered {
+		m := &protocol.UDPMessage{SessionID: s.sid, PacketID: s.pid, FragID: s.fragID, FragCount: s.fragCount, Addr: s.addr, Data: s.data}
+		buf := make([]byte, m.Size())
+		n := m.Serialize(buf)
+		if n != len(buf) {
+			return nil, fmt.Errorf("delivery %d does not serialize (%d of %d bytes)", i, n, len(buf))
+		}
+		p, perr := protocol.ParseUDPMessage(buf[:n:n])
+		if perr != nil {
+			return nil, fmt.Errorf("delivery %d is rejected by the receiver's parser: %v", i, perr)
+		}
+		if e := d.Feed(p); e != nil {
+			out = append(out, e)
+		}
+	}
+	return out, nil
+}
+
 func v05sRun(c v05sCase) (io *v05sIO, err error) {
 	rand.Seed(c.seed)
 	payload := v05sPayload(c.payloadLen, uint32(c.seed))
 	addr := v05sAddr(c.addrLen, int(c.sid%39))
-	io = &v05sIO{limit: c.limit, failAt: c.failAt}
+	io = &v05sIO{limit: c.limit, failAt: c.failAt, limit2: c.limit2, changeAt: c.changeAt}
 	msg := &protocol.UDPMessage{SessionID: c.sid, PacketID: 0, FragID: 0, FragCount: 1, Addr: addr, Data: append([]byte(nil), payload...)}
 	buf := make([]byte, protocol.MaxUDPSize)
 	var ret error
@@ -296,6 +371,9 @@ func v05sClasses(c v05sCase, io *v05sIO) (bool, []string) {
 	if c.failAt > 0 && io != nil && io.calls >= c.failAt {
 		cls = append(cls, "send-failure-injected")
 	}
+	if c.changeAt > 0 && io != nil && io.calls >= c.changeAt {
+		cls = append(cls, "limit-changed-mid-send")
+	}
 	nt := need >= 2 || need == 0 || (budget >= -2 && budget <= 2)
 	return nt, cls
 }
@@ -307,7 +385,7 @@ func TestVerifC05_ServerSendPath(t *testing.T) {
 		c := v05sGen(rt, 65535)
 		io, err := v05sRun(c)
 		nt, cls := v05sClasses(c, io)
-		st.Case(nt, fmt.Sprintf("%d/%d/%d/%d", c.payloadLen, c.addrLen, c.limit, c.failAt), cls, func() string {
+		st.Case(nt, fmt.Sprintf("%d/%d/%d/%d/%d/%d", c.payloadLen, c.addrLen, c.limit, c.failAt, c.limit2, c.changeAt), cls, func() string {
 			return fmt.Sprintf("%v -> %d delivered, %d refused", c, len(io.delivered), io.refused)
 		})
 		if err != nil {
@@ -328,6 +406,10 @@ func TestVerifC05_Regress_ServerSendPath(t *testing.T) {
 		{payloadLen: 511, addrLen: 1, limit: v05sHeaderSize(1) + 2, sid: 3, seed: 3},
 		{payloadLen: 255, addrLen: 1, limit: v05sHeaderSize(1) + 1, sid: 4, seed: 4},
 		{payloadLen: 65535, addrLen: 20, limit: 100, sid: 5, seed: 5},
+		// the limit shrinks after fragment 0 is out and gives the same fragment count (3) with other boundaries
+		{payloadLen: 2900, addrLen: 9, limit: v05sHeaderSize(9) + 1000, sid: 6, seed: 6, limit2: v05sHeaderSize(9) + 990, changeAt: 3},
+		{payloadLen: 2900, addrLen: 9, limit: v05sHeaderSize(9) + 1000, sid: 6, seed: 6, limit2: v05sHeaderSize(9) + 990, changeAt: 4},
+		{payloadLen: 2000, addrLen: 9, limit: v05sHeaderSize(9) + 1000, sid: 6, seed: 6, limit2: v05sHeaderSize(9) + 700, changeAt: 3},
 	} {
 		io, err := v05sRun(c)
 		_, cls := v05sClasses(c, io)
